@@ -73,7 +73,18 @@ def _apply(t, act):
         elif k == "agg":
             return t.operate(getattr(Operator, act[1]), act[2]), False
         elif k == "assign":
-            t.operate(act[2] + "=" + FORMS[act[1]].format(A=act[3], B=act[4]))
+            if act[1] == "lit" and (len(act[2]) + len(act[3])) % 2 == 0:
+                # the literal handed over as an EXTERNAL value; the same text was evaluated before, on another track, with
+                # another value (an external is looked up at every call)
+                import tk
+                scratch = tk.mk_track([0.0, 1.0])
+                try:
+                    scratch.operate(act[2] + "=kval", {"kval": -9.0})
+                except (Exception, SystemExit):
+                    pass
+                t.operate(act[2] + "=kval", {"kval": float(FORMS["lit"])})
+            else:
+                t.operate(act[2] + "=" + FORMS[act[1]].format(A=act[3], B=act[4]))
         elif k == "eval":
             return t.operate(FORMS[act[1]].format(A=act[2], B=act[3])), False
         else:
